@@ -417,8 +417,8 @@ def classify_kani(unit, rc, out, timed_out, wall):
                     res.setdefault("ignored_checks", []).append(f"{c['name']}: {d}")
                 else:
                     other_fail.append(c)
-            elif c["status"] == "UNDETERMINED":
-                other_undet += 1
+            elif c["status"] not in ("SUCCESS", "UNREACHABLE"):
+                other_undet += 1  # UNDETERMINED, ERROR, UNKNOWN ...: never counted as discharged
     if unwind_fail:
         res["undecided"] = "unwinding assertion failed (bound too small for the current code) - tool limit, not a violation"
         return res
@@ -439,10 +439,10 @@ def classify_kani(unit, rc, out, timed_out, wall):
             st = "discharged"
         elif "UNREACHABLE" in sts and "SUCCESS" not in sts:
             st = "vacuous"
-        elif "UNDETERMINED" in sts:
-            st = "undetermined"
-        else:
+        elif sts <= {"SUCCESS", "UNREACHABLE"}:
             st = "discharged"  # SUCCESS + UNREACHABLE instances (monomorphic copies)
+        else:
+            st = "undetermined"  # UNDETERMINED, ERROR, UNKNOWN ...: never counted as discharged
         if st == "vacuous" and expected and name not in expected:
             continue  # branch of a shared harness macro that does not exist for this instance
         res["obligations"].append({"id": f"{uid}::{name}", "status": st, "text": cs[0]["desc"][4:],
